@@ -257,6 +257,9 @@ func (m *mstate) runLeaf(n *NodeSpec) (string, string) {
 		budget, wait = cfg.Retries, cfg.WaitMs
 	}
 	edesc := "nil"
+	if !hasPhase(n, 1) && m.cancelled {
+		return "", "ctx" // the (default) exec attempt is not started either
+	}
 	if hasPhase(n, 1) {
 		lastErr := ""
 		lastEnd := -1
